@@ -40,9 +40,13 @@ def toDecimal (parse : String → Option Q) (v : PyVal) : R PyVal :=
 def vDecimal (parse : String → Option Q) (o : NumOpts) (v : PyVal) : R PyVal :=
   bindE (toDecimal parse v) (vNumber o)
 
-/-- where a class holds DecimalNumber fields: the field itself, the items of an `Array[DecimalNumber]`, the values of
-    a `Map[_, DecimalNumber]` -/
-inductive DecPos where | bare | items | values
+/-- where a class holds DecimalNumber fields: the field itself, the items of an `Array[DecimalNumber]` / `Deque[DecimalNumber]`, the
+    values of a `Map[_, DecimalNumber]`, `Optional[DecimalNumber]` -/
+inductive DecPos where
+  | bare | items | values
+  /-- `AnyOf[DecimalNumber, NoneField]` (Optional): a value Decimal cannot be built from is left to the AnyOf, which
+      refuses it with its own ValueError -/
+  | optional
 deriving Repr, DecidableEq, Inhabited
 
 /-- conversion of one keyword argument at a DecimalNumber position (a container of the wrong type is left to the
@@ -51,6 +55,8 @@ def convertArg (parse : String → Option Q) (pos : DecPos) (v : PyVal) : R PyVa
   match pos, v with
   | .bare, v => toDecimal parse v
   | .items, .list xs => bindE (mapE (toDecimal parse) xs) fun ys => .ok (.list ys)
+  | .items, .deque xs => bindE (mapE (toDecimal parse) xs) fun ys => .ok (.deque ys)
+  | .optional, v => (match toDecimal parse v with | .ok d => .ok d | .error _ => .ok v)
   | .values, .dict kvs =>
     bindE (mapE (fun (kv : PyVal × PyVal) => bindE (toDecimal parse kv.2) fun y => .ok (kv.1, y)) kvs) fun r => .ok (.dict r)
   | _, v => .ok v
